@@ -230,6 +230,7 @@ func (s *rbfSim) machineError(x int, cur chancloser.ProtocolEvent, err error) {
 	s.s[x].dead = err
 	s.stopped = true
 	r.Count("rbf_machine_error")
+	r.Count("rbf_err:" + errClass(err))
 	r.Logf("%s: state machine ERROR on %s in %s: %v (protocol stops; not judged)", nm(x), typeName(cur), stateName(s.s[x].st), err)
 }
 
